@@ -454,6 +454,13 @@ def data_configs(tier, seed):
     for n in range(4, (8 if tier == "quick" else 10) + 1):
         out.append(("MVCAPA", (0, 2), n, 1, "L2Saving", "L2Saving", 2, n, ("callable", 3.0, (2,), 5, (1,))))
         out.append(("CAPA", (0, 2), n, 1, "L2Saving", "L2Saving", 2, n, ("scale", 1.0, 0.7)))
+    # p = 3 with per-component penalties that DECREASE with rank (net savings can go +, -, +): the general branch of the
+    # penalised saving must really take the best prefix
+    for n in (3, 4) if tier == "quick" else (3, 4, 5):
+        out.append(("MVCAPA", (0, 2), n, 3, "L2Saving", "L2Saving", 2, n, ("callable", 0.5, (3, 2.5, 1), 1.0, (3, 2.5, 1))))
+    out.append(("MVCAPA", (0, 2), 4, 3, "L2Saving", "L2Saving", 2, 4, ("family", "intermediate", 0.35, "intermediate", 0.35)))
+    if tier == "thorough":
+        out.append(("MVCAPA", (0, 2), 3, 4, "L2Saving", "L2Saving", 2, 3, ("callable", 0.5, (3, 2.5, 1, 0.5), 1.0, (3, 1, 2.5, 0.5))))
     # fitted on a SHORTER prefix, predicting the full series (penalties read back from the fitted detector; the
     # optimality statement is about the data given to predict, whatever the training length was)
     for n in range(5, (8 if tier == "quick" else 9) + 1):
@@ -474,8 +481,17 @@ def data_configs(tier, seed):
 
 
 
+def long_configs(tier):
+    out = []
+    for n in (12, 16) if tier == "quick" else (12, 16, 20, 24):
+        for msl, M in ((2, 6), (4, n), (5, 8)):
+            out.append(("CAPA", n, msl, M, ("scale", 0.5, 0.5)))
+            out.append(("MVCAPA", n, msl, M, ("callable", 3.0, (2,), 5, (1,))))
+    return out
+
+
 def shards(tier, seed):
-    sh = []
+    sh = [("long", tier, i) for i in range(len(long_configs(tier)))]
     for ci, cfg in enumerate(table_configs(tier)):
         det, n, p, msl, M, fam, pvfam, pens = cfg
         nt = len(family_tables(n, msl, M, fam))
@@ -498,11 +514,23 @@ def bounds(tier, seed):
             for c in table_configs(tier)
         ],
         "data_configs": [str(c) for c in data_configs(tier, seed)][:80],
+        "medium_length(det,n,msl,M,pen)": [str(c) for c in long_configs(tier)],
     }
 
 
 def run_shard(shard):
     acc = core.Acc()
+    if shard[0] == "long":
+        det, n, msl, M, pen = long_configs(shard[1])[shard[2]]
+        for cps, xs in util.structured_series(n, 2, (0.0, 3.0)):
+            check_case(acc, {"mode": "data", "det": det, "x": [[v] for v in xs], "csav": "L2Saving", "psav": "L2Saving", "msl": msl, "M": M, "pen": list(pen)})
+        # four changes = two separated anomalies, plus an isolated spike
+        for cps, xs in util.structured_series(n, 4, (0.0, 3.0)):
+            if len(cps) == 4 and (cps[0] + 2 * cps[1] + cps[3]) % 7 == 0:
+                x = [[v] for v in xs]
+                x[(cps[2] + n) // 2 % n][0] += 6.0
+                check_case(acc, {"mode": "data", "det": det, "x": x, "csav": "L2Saving", "psav": "L2Saving", "msl": msl, "M": M, "pen": list(pen)})
+        return acc
     if shard[0] == "table":
         _, tier, ci, lo, hi = shard
         det, n, p, msl, M, fam, pvfam, pens = table_configs(tier)[ci]
